@@ -131,10 +131,17 @@ def run(ctx) -> None:
     okn = True
     for p in paths:
         rec = p.conds().get("self.recursive")
-        has_sub = any(e.kind == "yield_from" or (e.kind == "call" and e.extra.get("func") == "self.walk") for e in p.flat())
+        # (a `yield from` of anything else -- the entries already collected -- is not a descent)
+        has_sub = any((e.kind == "yield_from" and re.match(r"self\.walk\(", e.text)) or (e.kind == "call" and e.extra.get("func") == "self.walk") for e in p.flat())
         if has_sub and rec is not True:
             okn = False
     ctx.check(okn, RN, "walk(): recursion only when self.recursive", "the sub-walk runs although the snapshot is not recursive", loc)
+    # the right paths: an entry is spelled under the directory that was asked for, whatever the (custom) listdir's entries carry
+    RPA = ctx.rule("C10/entries-spelled-under-the-listed-directory", "every path the walk builds is join(<the directory it listed, as given>, <entry>.name): a custom listdir (PollingObserverVFS) only supplies names, and the events carry paths under the watched path (instance shared with C19)", floor=1)
+    from .c19 import walk_builds_paths_from_root
+
+    okp, ploc = walk_builds_paths_from_root(P)
+    ctx.check(okp, RPA, "DirectorySnapshot.walk builds paths from the directory as given", "snapshot paths are not all join(root, entry.name) over the entries of listdir(root): with a custom listdir the entries are recorded (and reported) under foreign paths, or the walk raises on entries that only have a name", ploc)
     # root stat
     init = P.find_method("DirectorySnapshot", "__init__")
     ipaths = Enumerator(WalkCfg(P, esc)).run(init, selfcls="DirectorySnapshot")
